@@ -114,6 +114,10 @@ def rule_prov(ctx):
                         ['not ' + norm(t) for t, b, _p in pr.control_conditions(q.stmt(c), lp) if not b]
                 if isinstance(base, ast.Subscript):
                     bucket_var = (norm(base.value), norm(base.slice), conds)
+                elif isinstance(base, ast.Call) and isinstance(base.func, ast.Attribute) and base.func.attr == 'setdefault' and len(base.args) == 2 \
+                        and isinstance(base.args[1], ast.List) and not base.args[1].elts:
+                    # buckets.setdefault(k, []).append(peer): the defaultdict spelt out
+                    bucket_var = (norm(base.func.value), norm(base.args[0]), conds)
                 else:
                     onion_var = (norm(base), conds)
     for kind, st, val in adds:
@@ -249,7 +253,9 @@ def rule_port(ctx):
     for p_ in rps:
         if isinstance(p_.value, ast.Constant) and p_.value.value is None:
             continue
-        oki = oki and any(pol and isinstance(t, ast.expr) and norm(t) == f'isinstance({norm(p_.value)}, int)' for t, pol, _n in p_.conds)
+        # ... or int(...) itself
+        oki = oki and (any(pol and isinstance(t, ast.expr) and norm(t) == f'isinstance({norm(p_.value)}, int)' for t, pol, _n in p_.conds)
+                       or (isinstance(p_.value, ast.Call) and norm(p_.value.func) == 'int'))
     ctx.check(oki, 'C19.PORT', ctx.key(g, None, 'integers only'), '_integer returns an int or None',
               '_integer can return a non-integer', loc=ctx.loc(g, g.node))
     return n + 1
